@@ -27,6 +27,11 @@ var conds = []string{
 	"true", "false", "ct", "cf", "!ct", "!cf", "(ct)", "ct && cf", "ct || cf", "1 < 2", "2 < 1", "ct == true", "cn > 3", "cn < 3",
 	"x > 3", "b", "!b", "ct && b", "cf || b", "probe(%d) > 0", "x == cn", "len(s) > 0",
 	"x > 3", "b", "!b", "x < cn", "probe(%d) > 0", "x != 0", "len(s) > 0", "b && x > 1", "b || cf", "x%2 == 0", "b",
+	// constant conditions that contain call-shaped nodes: builtins on constants, conversions, typed constants
+	`len("abc") == 3`, `len("abc") == 4`, "unsafe.Sizeof(int64(0)) == 4", "unsafe.Sizeof(int64(0)) == 8", "bool(flag(false))",
+	"bool(flag(true))", "!(len(name) > 2)", "len(name) > 2", "int(cn) == 5", "float64(cn) < 1.5", "min(1, cn) == 1", "max(1, cn) == 1",
+	"bool(tf)", "bool(tt)", "tt == true", "tf != false", `string(rune(65)) == "A"`, "real(complex(1, 2)) == 2", "len([3]int{}) == 3",
+	"(bool)(ct)", "!bool(cf)", `name[0] == 'a'`, "x > 3", "b", "len(s) > int(cn)", "bool(b)", "flag(b) == tt",
 }
 
 func (g *sgen) probe() string {
@@ -130,7 +135,22 @@ func (g *sgen) stmt(depth int) {
 // constant-false and non-constant conditions, with init statements, function literals, loops and switches.
 func genFile(rng *rand.Rand, idx, size int) string {
 	g := &sgen{rng: rng}
-	fmt.Fprintf(&g.sb, "package target\n\nconst ct = true\nconst cf = false\nconst cn = 5\n\ntype T struct{}\n\nfunc probe(n int) int { return n }\n\n")
+	fmt.Fprintf(&g.sb, "package target\n\nimport \"unsafe\"\n\nconst ct = true\nconst cf = false\nconst cn = 5\nconst name = \"abcd\"\n\ntype flag bool\n\nconst tt flag = true\nconst tf flag = false\n\nvar _ = unsafe.Sizeof(0)\n\ntype T struct{}\n\nfunc probe(n int) int { return n }\n\n")
+	// function literals at package level: variable initialisers, map and slice literals of funcs
+	g.max = size / 2
+	fmt.Fprintf(&g.sb, "var h%d = func(x int, b bool, s []int) {\n", idx)
+	g.block(0, 2+rng.Intn(3))
+	g.sb.WriteString("}\n\n")
+	g.max = size / 2
+	fmt.Fprintf(&g.sb, "var tbl%d = map[string]func(x int, b bool, s []int){\n\t\"a\": func(x int, b bool, s []int) {\n", idx)
+	g.block(1, 1+rng.Intn(3))
+	g.sb.WriteString("\t},\n\t\"b\": func(x int, b bool, s []int) {\n")
+	g.block(1, 1+rng.Intn(2))
+	g.sb.WriteString("\t},\n}\n\n")
+	g.max = size / 3
+	fmt.Fprintf(&g.sb, "var fs%d = []func(x int, b bool, s []int) int{func(x int, b bool, s []int) int {\n", idx)
+	g.block(0, 1+rng.Intn(3))
+	g.sb.WriteString("\treturn " + g.probe() + "\n}}\n\n")
 	nf := 2 + rng.Intn(3)
 	for i := 0; i < nf; i++ {
 		g.max = size
